@@ -437,8 +437,45 @@ func VerifC06() {
 // C07: injection by name
 // ---------------------------------------------------------------------------
 
+// two stateless (zero-sized) components of different types that declare the same name:
+// real Go may give both the same address, yet they are distinct components
+type vZN1 struct{}
+
+func (p *vZN1) Naming() string { return "stateless" }
+
+type vZN2 struct{}
+
+func (p *vZN2) Naming() string { return "stateless" }
+
+// a component and its own first field, both registered under one name
+type vOuterN struct {
+	Inner vInnerN
+	x     int
+}
+type vInnerN struct{ y int }
+
+func (p *vOuterN) Naming() string { return "nested" }
+func (p *vInnerN) Naming() string { return "nested" }
+
 // registration: two distinct components can never be registered under one name
 func VerifC07Register() {
+	switch nd.Choose(3) {
+	case 1:
+		reg := support.NewRegistry()
+		a, b := &vZN1{}, &vZN2{}
+		nd.Assert(!nd.Catch(func() { reg.RegisterSingleton(a) }), "C07: the first component of a name is accepted")
+		nd.Assert(nd.Catch(func() { reg.RegisterSingleton(b) }), "C07: a different component under an already registered name is rejected")
+		nd.Assert(!nd.Catch(func() { reg.RegisterSingleton(a) }), "C07: registering the same component again is accepted")
+		nd.Cover("stateless components sharing a name")
+		return
+	case 2:
+		reg := support.NewRegistry()
+		o := &vOuterN{}
+		nd.Assert(!nd.Catch(func() { reg.RegisterSingleton(o) }), "C07: the first component of a name is accepted")
+		nd.Assert(nd.Catch(func() { reg.RegisterSingleton(&o.Inner) }), "C07: a different component under an already registered name is rejected")
+		nd.Cover("a component and its first field sharing a name")
+		return
+	}
 	k := nd.Param("K", 3)
 	reg := support.NewRegistry()
 	var ps []any
